@@ -1056,6 +1056,24 @@ func (w *world) step(a action, closed *bool) {
 		}
 		tag := a.Tag
 		place := placeTag(tag)
+		if a.Kind == "parkargs" {
+			// the call is parked while it builds its parameters (the library holds no lock there, the import's hook has a call in
+			// progress) until release-send
+			h := &hold{m: "args", q: -1, release: make(chan struct{})}
+			w.mu.Lock()
+			w.holds = append(w.holds, h)
+			w.mu.Unlock()
+			place = func(s capnp.Struct) error {
+				s.SetUint32(0, uint32(tag))
+				w.log(J{"ev": "held", "m": "args", "tag": tag})
+				select {
+				case <-h.release:
+				case <-time.After(1500 * time.Millisecond):
+					w.log(J{"ev": "hold-expired", "m": "args", "tag": tag})
+				}
+				return nil
+			}
+		}
 		var pc *capnp.Client
 		placed := false
 		if a.Kind == "withcap" {
@@ -1225,7 +1243,14 @@ func (w *world) step(a action, closed *bool) {
 			return
 		}
 		w.log(J{"ev": "l-release", "h": a.H})
-		c.Release()
+		// (the last Release waits for calls in progress on the hook: do not let it hold up the script)
+		rdone := make(chan struct{})
+		w.wg.Add(1)
+		go func() { defer w.wg.Done(); c.Release(); close(rdone) }()
+		select {
+		case <-rdone:
+		case <-time.After(20 * time.Millisecond):
+		}
 	case "close":
 		if *closed {
 			w.log(J{"ev": "close"})
